@@ -35,6 +35,14 @@ class Ctx:
         self.seed = seed
         self.t0 = time.time()
         self.scratch = tempfile.mkdtemp(prefix="verif-%s-" % prop.lower())
+        # everything a child process (driver, TLC, go) or a later mkdtemp creates goes under the scratch directory,
+        # which is removed at the end of the check: nothing is left behind in /tmp
+        tmp = os.path.join(self.scratch, "tmp")
+        os.makedirs(tmp, exist_ok=True)
+        if "VERIF_OUTER_TMPDIR" not in os.environ:
+            os.environ["VERIF_OUTER_TMPDIR"] = tempfile.gettempdir()
+            os.environ["TMPDIR"] = tmp
+            tempfile.tempdir = tmp
         self.keep = keep
         self.cov = {"samples": []}
         self.assumptions = []
@@ -130,7 +138,8 @@ TLC_CP = "/opt/veriftools/tla/tla2tools.jar:/opt/veriftools/tla/CommunityModules
 
 
 def _tlc_cmd(args, heap=None, dfs=False, gcthreads=None):
-    cmd = ["java", "-XX:+UseParallelGC", "-XX:ParallelGCThreads=%d" % (gcthreads or 4), "-Xss512m"]
+    cmd = ["java", "-XX:+UseParallelGC", "-XX:ParallelGCThreads=%d" % (gcthreads or 4), "-Xss512m",
+           "-Djava.io.tmpdir=%s" % tempfile.gettempdir()]
     if heap:
         cmd.append("-Xmx%s" % heap)
     if dfs:
